@@ -4,11 +4,11 @@ from checks import repo_common
 LEVEL = "model_checking"
 MANIFEST = {
     "engine": "tlc Repo rule table (sparse universe) + vh repo C32",
-    "technique": "explicit TLA+ specification of cone membership by whole path components (Repo.tla SparsePost) enumerated by TLC over all (current tree, target tree, sparse directory set) combinations of a universe whose names share string prefixes but not components (a/x, ab/y, a/b/0, a/b/c/w, f); each row is a real forced checkout with SparseCheckoutDirectories and the worktree files, index entries and skip-worktree flags are compared",
-    "text": "Exhaustive: all 32 x 32 (current, target) tree pairs x 5 sparse directory sets ({a}, {ab}, {a/b}, {a/b/c}, {a, ab}) from clean pre-states = 5120 rows (quick: a fixed stratified third; thorough: all); in-cone paths must be present and not skip-worktree, out-of-cone tracked paths absent and skip-worktree.",
-    "note": "Clean pre-states only (sparse switching with local changes is covered by C30's rules without cones); one blob content.",
+    "technique": "explicit TLA+ specification of cone membership by whole path components (Repo.tla SparsePost) enumerated by TLC over all (current tree, target tree, sparse directory set) combinations of a universe whose names share string prefixes but not components (a/x, ab/y, a/b/0, a/b/c/w, c/v, f); each row is a real forced checkout with SparseCheckoutDirectories and the worktree files, index entries and skip-worktree flags are compared",
+    "text": "Exhaustive: all 64 x 64 (current, target) tree pairs x 6 sparse directory sets ({a}, {ab}, {a/b}, {a/b/c}, {a, ab}, {c}) from clean pre-states, all 36 switches from an already sparse worktree (sparse2: skip-worktree bits set, files absent) and all 32 x 6 forced sparse checkouts over a fully tracked worktree with local modifications (quick: a fixed stratified sample plus every sparse2 row; thorough: all); in-cone paths must be present and not skip-worktree, out-of-cone tracked paths absent and skip-worktree.",
+    "note": "Keep resets that narrow the sparse set over local modifications are C30's sparse-keep rows.",
 }
 
 
 def run(ctx):
-    repo_common.run_prop(ctx, "C32", ["sparse"], ["sparse"], ["sparse"], 1700)
+    repo_common.run_prop(ctx, "C32", ["sparse", "sparse-dirty"], ["sparse", "sparse-dirty"], ["sparse", "sparse2"], 1900)
